@@ -17,6 +17,8 @@ structure St where
   lock : Option Nat := none                      -- C12: lock holder
   waiting : List (Nat × LogSpec) := []
   gateOf : List (Nat × Nat) := []
+  stacks : List (Nat × LogSpec) := []            -- C12: specifications saved by pushes of handle clones
+  readers : List (Nat × LogSpec) := []           -- C12: pushes waiting for the read lock
 
 def filtersStr (fs : List MF) : String :=
   if fs.isEmpty then "-" else
@@ -44,6 +46,13 @@ def parseRegex (s : String) : Option (Option (List Char)) :=
   if s = "_" then some none else (hexToText (s.drop 1).toString).map some
 
 def getSpec (st : St) (id : String) : Option LogSpec := (st.specs.find? (·.1 = id)).map (·.2)
+
+/-- one step of the push/pop layer over the lock protocol (`PState.step`) -/
+def pstep (st : St) (a : PAct) : St × String :=
+  let p : PState := ⟨CState.mk st.handle st.lock st.waiting st.gateOf, st.stacks, st.readers⟩
+  let (q, ok, _) := p.step a
+  ({ st with handle := q.c.handle, lock := q.c.lock, waiting := q.c.waiting, gateOf := q.c.gateOf,
+             stacks := q.stacks, readers := q.readers }, if ok then "ok" else "blocked")
 
 def deliverStr : Deliver → String
   | .writer n => "w" ++ textToHex n
@@ -229,10 +238,16 @@ def step (st : St) (toks : List String) : St × String :=
     | _, _ => (st, "bad-op")
   | ["CFINISH", tid] =>
     match tid.toNat? with
-    | some tid =>
-      let (c, ok) := (CState.mk st.handle st.lock st.waiting st.gateOf).step (.finish tid)
-      ({ st with handle := c.handle, lock := c.lock, waiting := c.waiting, gateOf := c.gateOf },
-        if ok then "ok" else "blocked")
+    | some tid => pstep st (.finish tid)
+    | none => (st, "bad-op")
+  -- push_temp_spec / pop_temp_spec of the handle clone `tid` (every clone has its own stack)
+  | ["CPUSH", tid, id] =>
+    match tid.toNat?, getSpec st id with
+    | some tid, some s => pstep st (.push tid s)
+    | _, _ => (st, "bad-op")
+  | ["CPOP", tid] =>
+    match tid.toNat? with
+    | some tid => pstep st (.pop tid)
     | none => (st, "bad-op")
   -- free-running races: which specification wins is not predicted; the harness judges consistency
   | "CRACE" :: _ => (st, "ok")
